@@ -26,11 +26,13 @@ Clauses(X, K, C) ==
         Cl("C04_Ann", done, C04_Ann(X)),
         Cl("C04_InBounds", done, C04_InBounds(X)),
         Cl("C04_SymIdentity", done, C04_SymIdentity(X)),
+        Cl("C04_NoStaleOnEmpty", done, C04_NoStaleOnEmpty(X)),
         Cl("C06_Attribution", done, C06_Attribution(X)),
         Cl("C06_DataNever", done, C06_DataNever(X)),
         Cl("C06_Partition", done, C06_Partition(X)),
         Cl("C06_Entries", done, C06_Entries(X)),
         Cl("C06_EmptyFunctionGone", done, C06_EmptyFunctionGone(X)),
+        Cl("C06_InsertedFunction", done, C06_InsertedFunction(X)),
         Cl("C03_Completes", IF dom THEN K.preOk ELSE FALSE, Completed(t)),
         Cl("C03_Fallthrough", IF done THEN K.dom ELSE FALSE, C03_Fallthrough(K)),
         Cl("C03_BranchCall", IF done THEN K.dom ELSE FALSE, C03_BranchCall(K)),
